@@ -272,6 +272,9 @@ pub struct FaultCfg {
     pub replay_pm: u64,
     pub reflect_pm: u64,
     pub drop_reply_pm: u64,
+    /// per-mille of the node's IP replies for which the peer (or a router on the way) sends an
+    /// ICMP error quoting the reply back at the node
+    pub icmp_error_pm: u64,
     /// scheduled events
     pub clock_jumps: u64,
     pub soft_restarts: u64,
@@ -429,6 +432,13 @@ impl Plan {
                 }
             }
         };
+        // the interface the responder is bound to: none (as in the unit tests), one with the
+        // configured MAC, or one with another hardware address (production with --mac-addr)
+        let iface = match rng.below(3) {
+            0 => None,
+            1 => Some(mac),
+            _ => Some(rand_mac(rng)),
+        };
         let cfg = Config {
             mac,
             key,
@@ -437,6 +447,7 @@ impl Plan {
             logger,
             level,
             build,
+            iface,
         };
         // faults: swarm - each kind enabled independently, some runs fault-free
         let mut faults = FaultCfg::default();
@@ -460,6 +471,7 @@ impl Plan {
             faults.ipvary_pm = on(rng, 40, 10, 120);
             faults.replay_pm = on(rng, 40, 10, 100);
             faults.drop_reply_pm = on(rng, 40, 10, 200);
+            faults.icmp_error_pm = on(rng, 30, 20, 250);
             faults.clock_jumps = on(rng, 40, 1, 3);
             faults.soft_restarts = on(rng, 25, 1, 2);
             faults.hard_restarts = on(rng, 12, 1, 1);
